@@ -1,8 +1,221 @@
 package main
 
-// extraChecks: obligation generators that do not come from symbolic execution of a function body
-// (constant tables, type-declaration-driven checks). Filled in by tables.go / walker.go.
-func extraChecks(P *Prog, prop string) []*Enc { return nil }
+import (
+	"fmt"
+	"go/ast"
+	"go/token"
+	"go/types"
+	"sort"
+	"strconv"
+	"strings"
+
+	"golang.org/x/tools/go/packages"
+)
+
+// extraChecks: obligation generators that do not come from symbolic execution of a function body:
+// ground facts read off the typed AST (package tables, import graph) and off the constant parser tables.
+func extraChecks(P *Prog, prop string) []*Enc {
+	var out []*Enc
+	switch prop {
+	case "C19":
+		out = append(out, packageTableChecks(P)...)
+	case "C18":
+		out = append(out, importChecks(P)...)
+	case "C03":
+		out = append(out, tableLemmaChecks(P)...)
+	}
+	return out
+}
+
+func newGroundEnc(P *Prog, key string) *Enc {
+	e := &Enc{P: P, key: key, decls: newDecls(), compSort: map[string]string{}, strConsts: map[string]Term{},
+		tidsUsed: map[int]bool{}, ifacesUsed: map[string]*types.Interface{}, oblCount: map[string]int{},
+		paramVals: map[string]Val{}, paramTypes: map[string]types.Type{}, curBlk: -1}
+	e.decls.add("const:hwm0", "(declare-const hwm0 Int)")
+	e.pre = &State{reach: TTrue, heaps: map[string]Term{}, hwm: Term{"hwm0", SInt}}
+	return e
+}
+
+func (e *Enc) groundObl(class, anchor string, props []string, goal Term, desc string, pos token.Pos) {
+	e.oblige(class, anchor, props, TTrue, goal, desc, pos)
+	// ground facts are independent: do not let one failed fact be assumed for the next ones
+	e.body = e.body[:0]
+	e.bodyBlk = e.bodyBlk[:0]
+}
+
+func findPkg(P *Prog, path string) *packages.Package {
+	var found *packages.Package
+	packages.Visit(P.Pkgs, nil, func(p *packages.Package) {
+		if p.PkgPath == path {
+			found = p
+		}
+	})
+	return found
+}
+
+// importChecks (C18): the command imports the bundled package tables and the core builtins.
+func importChecks(P *Prog) []*Enc {
+	e := newGroundEnc(P, "main.imports")
+	mainPkg := findPkg(P, ankoPath)
+	if mainPkg == nil {
+		e.unsupported = "main package not loaded"
+		return []*Enc{e}
+	}
+	for _, want := range []string{ankoPath + "/packages", ankoPath + "/core", ankoPath + "/vm"} {
+		_, ok := mainPkg.Imports[want]
+		goal := TFalse
+		if ok {
+			goal = Eq(e.strConst(want), e.strConst(want))
+		}
+		e.groundObl("table", "import."+want[len(ankoPath)+1:], []string{"C18"}, goal, "the anko command imports "+want, token.NoPos)
+	}
+	return []*Enc{e}
+}
+
+// packageTableChecks (C19): every entry of env.Packages / env.PackageTypes is bound to the Go object whose name
+// is the entry's key, in the package whose import path is the table's name. Go's own identifier resolution
+// (go/types) is the oracle. Exceptions (local helper types) are declared in the contract file of package packages.
+func packageTableChecks(P *Prog) []*Enc {
+	pkg := findPkg(P, ankoPath+"/packages")
+	e := newGroundEnc(P, "packages.tables")
+	if pkg == nil {
+		e.unsupported = "package packages not loaded"
+		return []*Enc{e}
+	}
+	e.pkg = pkg.Types
+	exceptions := map[string]bool{}
+	for _, g := range P.Spec.Guarded {
+		_ = g
+	}
+	for _, x := range P.Spec.TableExceptions {
+		exceptions[x] = true
+	}
+	type entry struct {
+		table, key string
+		val        ast.Expr
+		pos        token.Pos
+		isType     bool
+	}
+	var entries []entry
+	tableOf := func(x ast.Expr) (name string, isType bool, ok bool) {
+		// env.Packages["p"] or env.PackageTypes["p"]
+		ix, ok1 := x.(*ast.IndexExpr)
+		if !ok1 {
+			return "", false, false
+		}
+		sel, ok2 := ix.X.(*ast.SelectorExpr)
+		if !ok2 || (sel.Sel.Name != "Packages" && sel.Sel.Name != "PackageTypes") {
+			return "", false, false
+		}
+		lit, ok3 := ix.Index.(*ast.BasicLit)
+		if !ok3 {
+			return "", false, false
+		}
+		s, err := strconv.Unquote(lit.Value)
+		if err != nil {
+			return "", false, false
+		}
+		return s, sel.Sel.Name == "PackageTypes", true
+	}
+	for _, f := range pkg.Syntax {
+		ast.Inspect(f, func(n ast.Node) bool {
+			as, ok := n.(*ast.AssignStmt)
+			if !ok || len(as.Lhs) != 1 || len(as.Rhs) != 1 {
+				return true
+			}
+			if t, isType, ok := tableOf(as.Lhs[0]); ok {
+				if cl, ok := as.Rhs[0].(*ast.CompositeLit); ok {
+					for _, el := range cl.Elts {
+						kv, ok := el.(*ast.KeyValueExpr)
+						if !ok {
+							continue
+						}
+						kl, ok := kv.Key.(*ast.BasicLit)
+						if !ok {
+							continue
+						}
+						k, _ := strconv.Unquote(kl.Value)
+						entries = append(entries, entry{t, k, kv.Value, kv.Pos(), isType})
+					}
+				}
+				return true
+			}
+			// env.Packages["p"]["K"] = ...
+			if ix, ok := as.Lhs[0].(*ast.IndexExpr); ok {
+				if t, isType, ok := tableOf(ix.X); ok {
+					if kl, ok := ix.Index.(*ast.BasicLit); ok {
+						k, _ := strconv.Unquote(kl.Value)
+						entries = append(entries, entry{t, k, as.Rhs[0], as.Pos(), isType})
+					}
+				}
+			}
+			return true
+		})
+	}
+	sort.Slice(entries, func(i, j int) bool {
+		if entries[i].table != entries[j].table {
+			return entries[i].table < entries[j].table
+		}
+		return entries[i].key < entries[j].key
+	})
+	// the object an entry's value denotes
+	var objectOf func(x ast.Expr) types.Object
+	objectOf = func(x ast.Expr) types.Object {
+		switch x := x.(type) {
+		case *ast.SelectorExpr:
+			return pkg.TypesInfo.Uses[x.Sel]
+		case *ast.Ident:
+			return pkg.TypesInfo.Uses[x]
+		case *ast.CallExpr:
+			// reflect.ValueOf(X), reflect.TypeOf(X), X.Elem(), conversions T(x), (*T)(nil)
+			if sel, ok := x.Fun.(*ast.SelectorExpr); ok {
+				if id, ok := sel.X.(*ast.Ident); ok && id.Name == "reflect" && len(x.Args) == 1 {
+					return objectOf(x.Args[0])
+				}
+				if sel.Sel.Name == "Elem" && len(x.Args) == 0 {
+					return objectOf(sel.X)
+				}
+			}
+			if tv, ok := pkg.TypesInfo.Types[x.Fun]; ok && tv.IsType() {
+				return objectOf(x.Fun)
+			}
+			return nil
+		case *ast.CompositeLit:
+			return objectOf(x.Type)
+		case *ast.UnaryExpr:
+			return objectOf(x.X)
+		case *ast.StarExpr:
+			return objectOf(x.X)
+		case *ast.ParenExpr:
+			return objectOf(x.X)
+		}
+		return nil
+	}
+	for _, en := range entries {
+		name := en.table + "." + en.key
+		if exceptions[name] {
+			continue
+		}
+		obj := objectOf(en.val)
+		goal := TFalse
+		desc := fmt.Sprintf("table entry %q of package table %q is bound to the Go object of that name in that package", en.key, en.table)
+		if obj != nil && obj.Pkg() != nil {
+			goal = And(Eq(e.strConst(en.key), e.strConst(obj.Name())), Eq(e.strConst(en.table), e.strConst(obj.Pkg().Path())))
+			desc += fmt.Sprintf(" (bound to %s.%s)", obj.Pkg().Path(), obj.Name())
+		} else {
+			desc += " (value is not a reference to a package-level Go object)"
+		}
+		kind := "value"
+		if en.isType {
+			kind = "type"
+		}
+		e.groundObl("table", kind+"."+strings.ReplaceAll(name, "/", "_"), []string{"C19"}, goal, desc, en.pos)
+	}
+	if len(entries) == 0 {
+		e.unsupported = "no package table entries found"
+	}
+	return []*Enc{e}
+}
 
 func propAssumptions(prop string) []string {
 	common := []string{
@@ -11,6 +224,7 @@ func propAssumptions(prop string) []string {
 		"termination is proved only where a decreases clause is stated",
 		"integers are modelled exactly (two's-complement wrap-around via ite/mod on mathematical integers); bitwise operators and variable shifts are uninterpreted functions",
 		"slices and strings are at most 2^56 elements long (address-space fact of the Go runtime)",
+		"go/ssa lowers range loops over slices to an index cell that starts at -1 and is only incremented",
 	}
 	return append(common, propSpecificAssumptions[prop]...)
 }
